@@ -642,10 +642,17 @@ type typedCase struct {
 	Regs    []string `json:"registrations"`
 	Setter  bool     `json:"handler_by_setter"`
 	Handler bool     `json:"handler"`
+	// BadFirst: the documents that cannot be decoded come first in the log (the first
+	// event of a type that a replay meets is one whose upcast fails)
+	BadFirst bool `json:"undecodable_documents_first,omitempty"`
 }
 
 func (t typedCase) String() string {
-	return fmt.Sprintf("typed upcasters registered in order %v, handler=%v bySetter=%v", t.Regs, t.Handler, t.Setter)
+	bf := ""
+	if t.BadFirst {
+		bf = ", undecodable documents first in the log"
+	}
+	return fmt.Sprintf("typed upcasters registered in order %v, handler=%v bySetter=%v%s", t.Regs, t.Handler, t.Setter, bf)
 }
 
 func typedSets() [][]string {
@@ -693,28 +700,39 @@ func runTyped(tc typedCase) (vs []viol, evals, nontrivial int) {
 	}
 	store := eventbus.NewMemoryStore()
 	pub := eventbus.New(eventbus.WithStore(store))
-	for _, v := range []V1{{}, {"Ann", 17}, {"Bob", 18}, {"Zoë <&> \"q\"", -4}, {"teen", 12}, {strings.Repeat("long", 50), 99}} {
-		eventbus.Publish(pub, v)
-	}
-	for _, v := range []V2{{"Full", 30, nil}, {"", 0, []string{}}, {"T", 17, []string{"x", "y"}}} {
-		eventbus.Publish(pub, v)
-	}
-	for _, v := range []V3{{"D", true, nil, "stored"}, {}} {
-		eventbus.Publish(pub, v)
-	}
-	// documents that cannot be decoded into their declared source type
 	n1, n2 := eventbus.EventType(V1{}), eventbus.EventType(V2{})
-	store.Append(context.Background(), &eventbus.Event{Type: n1, Data: json.RawMessage(`{"Name":5,"Age":"x"}`), Timestamp: time.Unix(1600000000, 0)})
-	store.Append(context.Background(), &eventbus.Event{Type: n2, Data: json.RawMessage(`{"FullName":"teen","Age":13}`), Timestamp: time.Unix(1600000001, 0)})
-	store.Append(context.Background(), &eventbus.Event{Type: "unrelated.Type", Data: json.RawMessage(`{"x":[1,2,3]}`), Timestamp: time.Unix(1600000002, 0)})
-	// documents that fail to decode *after* some of their fields were accepted (a type
-	// mismatch in one field), each followed by documents of the same type that leave fields
-	// out: what an upcaster decoded for one event must not show up in the next
-	for i, d := range []struct{ t, doc string }{
-		{n1, `{"Name":"leak","Age":"forty"}`}, {n1, `{"Age":21}`}, {n1, `{}`},
-		{n2, `{"FullName":"leak2","Tags":["secret","vip"],"Age":"x"}`}, {n2, `{"Age":40}`}, {n2, `{"FullName":"only"}`},
-	} {
-		store.Append(context.Background(), &eventbus.Event{Type: d.t, Data: json.RawMessage(d.doc), Timestamp: time.Unix(1600000010+int64(i), 0)})
+	validDocs := func() {
+		for _, v := range []V1{{}, {"Ann", 17}, {"Bob", 18}, {"Zoë <&> \"q\"", -4}, {"teen", 12}, {strings.Repeat("long", 50), 99}} {
+			eventbus.Publish(pub, v)
+		}
+		for _, v := range []V2{{"Full", 30, nil}, {"", 0, []string{}}, {"T", 17, []string{"x", "y"}}} {
+			eventbus.Publish(pub, v)
+		}
+		for _, v := range []V3{{"D", true, nil, "stored"}, {}} {
+			eventbus.Publish(pub, v)
+		}
+	}
+	badDocs := func() {
+		// documents that cannot be decoded into their declared source type
+		store.Append(context.Background(), &eventbus.Event{Type: n1, Data: json.RawMessage(`{"Name":5,"Age":"x"}`), Timestamp: time.Unix(1600000000, 0)})
+		store.Append(context.Background(), &eventbus.Event{Type: n2, Data: json.RawMessage(`{"FullName":"teen","Age":13}`), Timestamp: time.Unix(1600000001, 0)})
+		store.Append(context.Background(), &eventbus.Event{Type: "unrelated.Type", Data: json.RawMessage(`{"x":[1,2,3]}`), Timestamp: time.Unix(1600000002, 0)})
+		// documents that fail to decode *after* some of their fields were accepted (a type
+		// mismatch in one field), each followed by documents of the same type that leave fields
+		// out: what an upcaster decoded for one event must not show up in the next
+		for i, d := range []struct{ t, doc string }{
+			{n1, `{"Name":"leak","Age":"forty"}`}, {n1, `{"Age":21}`}, {n1, `{}`},
+			{n2, `{"FullName":"leak2","Tags":["secret","vip"],"Age":"x"}`}, {n2, `{"Age":40}`}, {n2, `{"FullName":"only"}`},
+		} {
+			store.Append(context.Background(), &eventbus.Event{Type: d.t, Data: json.RawMessage(d.doc), Timestamp: time.Unix(1600000010+int64(i), 0)})
+		}
+	}
+	if tc.BadFirst {
+		badDocs()
+		validDocs()
+	} else {
+		validDocs()
+		badDocs()
 	}
 	stored, _, err := store.Read(context.Background(), eventbus.OffsetOldest, 0)
 	if err != nil || len(stored) != 20 {
@@ -962,15 +980,17 @@ func run(c *h.Check) {
 			if !c.Mine(ti) {
 				continue
 			}
-			tc := typedCase{Part: "typed", Regs: regs, Handler: hd > 0, Setter: hd == 2}
-			vs, evals, nt := runTyped(tc)
-			c.Count("states", 1)
-			c.Count("evaluations", int64(evals))
-			c.Count("transitions", int64(evals))
-			c.Count("traces_validated_against_impl", int64(evals))
-			c.Count("nontrivial", int64(nt))
-			c.Count("typed_cases", 1)
-			report(vs, tc)
+			for _, bf := range []bool{false, true} {
+				tc := typedCase{Part: "typed", Regs: regs, Handler: hd > 0, Setter: hd == 2, BadFirst: bf}
+				vs, evals, nt := runTyped(tc)
+				c.Count("states", 1)
+				c.Count("evaluations", int64(evals))
+				c.Count("transitions", int64(evals))
+				c.Count("traces_validated_against_impl", int64(evals))
+				c.Count("nontrivial", int64(nt))
+				c.Count("typed_cases", 1)
+				report(vs, tc)
+			}
 		}
 	}
 }
